@@ -113,6 +113,7 @@ def run(case):
                     want.append((v + ".0", v + ".1"))
                     if i + 1 < len(p):
                         want.append((v + ".1", p[i + 1] + ".0"))
+                want = [x for i_, x in enumerate(want) if x not in want[:i_]]   # every element once (a self-loop names its node twice)
                 if ce != want:
                     viol.append({"kind": "roundtrip_constraint", "msg": f"edge constraint along {p} expanded to {ce}, expected {want}"})
         for v in V:
@@ -221,6 +222,13 @@ def run(case):
                         {ckey: [[[p2[0] + "|in", p2[0] + "|out"], [p2[0] + "|out", p2[1] + "|in"], [p2[1] + "|in", p2[1] + "|out"]]],
                          "subpath_constraints_coverage_length": 0.6, "length_attr": "length", "_node_lengths": n1,
                          "elements_to_ignore": [[p2[1] + "|in", p2[1] + "|out"]]})
+                # an edge-form constraint that is NOT a contiguous path: two arcs leaving the same node (for the cyclic classes constraints are
+                # sets anyway). Expansion: both end nodes and the connecting arc of every arc, each element once; coverage 0.75 of those 5
+                fork = [(a_, b_, c_) for (a_, b_) in A for (a2_, c_) in A if a2_ == a_ and c_ != b_ and a_ != b_ and a_ != c_][:1]
+                for (a_, b_, c_) in fork:
+                    covk = "subset_constraints_coverage" if cyc else "subpath_constraints_coverage"
+                    add(f"edge_constraint_fork,coverage=0.75:{a_}{b_}{c_}", use0, {ckey: [[[a_, b_], [a_, c_]]], covk: 0.75},
+                        {ckey: [[[a_ + "|in", a_ + "|out"], [a_ + "|out", b_ + "|in"], [b_ + "|in", b_ + "|out"], [a_ + "|out", c_ + "|in"], [c_ + "|in", c_ + "|out"]]], covk: 0.75})
                 add("edge_constraint", use0, {ckey: [[[p2[0], p2[1]]]]},
                     {ckey: [[[p2[0] + "|in", p2[0] + "|out"], [p2[0] + "|out", p2[1] + "|in"], [p2[1] + "|in", p2[1] + "|out"]]]})
         # MinFlowDecomp takes additional starts / ends in node mode only: its explicit expansion gets a global source S* (sink T*)
